@@ -181,7 +181,21 @@ func nhScenarioQuiesce(rec *nhRec, tid int, seed int64, smType string, store str
 			time.Sleep(time.Duration(rng.Intn(700)) * time.Millisecond)
 		}
 		l := r.leaderHost()
-		switch x := rng.Intn(10); {
+		switch x := rng.Intn(12); {
+		case x >= 10 && l != 0:
+			// the leader dies while everybody sleeps; a majority is still running and connected: a
+			// request on one of the sleeping followers must get the shard going again (election,
+			// then service) - one kind of request per episode, so that each has to do it alone
+			kind := []string{"propose", "read"}[rng.Intn(2)]
+			r.crash(l, false, rng)
+			rec.emit("Fault", nhEv{"what": "headless", "h": l, "kind": kind})
+			surv := 1 + rng.Intn(hosts)
+			for surv == l {
+				surv = 1 + rng.Intn(hosts)
+			}
+			q.mustComplete(kind, surv, "headless")
+			r.restart(l)
+			r.waitLeader(10 * time.Second)
 		case x < 4:
 			// healthy shard, woken up by a request on any replica
 			q.mustComplete(kinds[rng.Intn(len(kinds))], 1+rng.Intn(hosts), "healthy")
